@@ -168,14 +168,23 @@ def families(tier):
         ("literals-designators-calls", 0, False, special_family()),
     ]
     if tier != "quick":
+        import random
+        sd = core.seed()
+        allarith = enum_typed(3, a, [], ("+", "-"), ARITH, (), (), (), "N")
+        t3 = enum_typed(3, a, [], ("-",), ("*", "**", "-"), (), (), (), "N")
+        rnd = random.Random(1009 * sd + 17)
+        d4 = []
+        for _ in range(40000):       # depth-4 trees: random top node over all depth-3 trees
+            o = rnd.choice(("u-", "*", "**", "-"))
+            d4.append(un("-", rnd.choice(t3)) if o == "u-"
+                      else bn(o, rnd.choice(t3), rnd.choice(t3)))
         fams += [
-            ("d3-all-arithmetic", 3, True,
-             enum_typed(3, a, [], ("+", "-"), ARITH, (), (), (), "N")),
+            # every 5th of the 568 520 trees (offset by the seed)
+            ("d3-all-arithmetic-1in5", 3, True, allarith[sd % 5::5]),
             ("d3-logical-wide", 3, True,
              enum_typed(3, a, lp, ("-",), ("*",), (".not.",), (".and.", ".or.", ".neqv."),
                         ("==", "<="), "L")),
-            ("d4-minus-mul-pow", 4, True,
-             enum_typed(4, a, [], ("-",), ("*", "**"), (), (), (), "N")[::7]),
+            ("d4-sampled-minus-mul-pow-sub", 4, True, d4),
         ]
     return fams
 
@@ -225,7 +234,10 @@ def fam_trees(tier):
     process (a deterministic function of the tier).'''
     if tier not in _FAMS:
         res = {}
+        only = [f for f in os.environ.get("PV_C02_ONLY", "").split(",") if f]
         for fam, depth, label, trees in families(tier):
+            if only and fam not in only:        # development / demo aid
+                continue
             if label:
                 trees = [relabel(t, [0, 0]) for t in trees]
             res[fam] = (depth, trees)
@@ -482,8 +494,8 @@ def validate(out, cov, cases, tmp, workers=None, batch=60000):
 def mc_configs(tier):
     cfgs = ["FortranExprMC_d2.cfg", "FortranExprMC_d3.cfg"]
     if tier != "quick":
-        cfgs += ["FortranExprMC_d3b.cfg", "FortranExprMC_thorough.cfg",
-                 "FortranExprMC_thorough2.cfg"]
+        cfgs += ["FortranExprMC_d3b.cfg", "FortranExprMC_d2full.cfg",
+                 "FortranExprMC_thorough.cfg", "FortranExprMC_thorough2.cfg"]
     return cfgs
 
 
@@ -533,7 +545,8 @@ def run(tier):
         # design level (TLC on the spec alone) runs beside the trace validation
         # (threads are started only after the process pool is gone)
         futs = [pool.submit(design_level, cfg, max(2, ncpu // 4))
-                for cfg in mc_configs(tier)]
+                for cfg in mc_configs(tier)
+                if not os.environ.get("PV_C02_ONLY")]
         validate(out, cov, cases, tmp, workers=max(2, ncpu // 2))
         for f in futs:
             dist, gen = f.result()
@@ -548,6 +561,11 @@ def run(tier):
     nontrivial = sum(1 for c in cases if c["tree"]["k"] in ("un", "bin", "des"))
     peq_div = sum(1 for c in cases if c["rd"] == 1 and not c["peq"])
     refused = sum(1 for c in cases if c["rd"] == 0)
+    if tier != "quick":
+        cov["exhaustive"] = False      # the 1-in-5 and depth-4 families are samples
+    if os.environ.get("PV_C02_ONLY"):
+        cov["exhaustive"] = False
+        cov["restricted_to"] = os.environ["PV_C02_ONLY"]
     cov["evaluations"] = total
     cov["distinct_nontrivial"] = nontrivial
     cov["reader_refused"] = refused
